@@ -45,6 +45,11 @@ def colour_menu(O):
     nested = [(a, b) for a in ints for b in ints if a != b and O.sanc(a, b)]
     for a, b in nested:
         out.append((f"nested_{a}_{b}", {a: COL["r"], b: COL["g"]}))
+    if nested:
+        # an explicit black inside a coloured subtree (the natural way to switch a sub-subtree back to black), and the reverse
+        a, b = nested[0]
+        out.append((f"black_nested_{a}_{b}", {a: COL["r"], b: "000000"}))
+        out.append((f"black_outer_{a}_{b}", {a: "000000", b: COL["g"]}))
     out.append(("leaf", {O.leaves[-1]: COL["b"]}))
     if len(ints) >= 1 and len(O.children[O.root]) == 2:
         l, r = O.children[O.root]
@@ -93,7 +98,7 @@ def check_tikz(O, S, leafmap, m, evs, labmode, scheme, colid, orient, stubspec=(
     lab = None if labmode == "none" else R.labellings_for(O, labmode)
     if lab is not None and scheme != "plain":
         ren = {"g1": "fam_1", "g2": "g_2_x", "g3": "g3"}
-        lab = {v: tuple(ren[f] for f in syn) for v, syn in lab.items()}
+        lab = {v: tuple(ren.get(f, f) for f in syn) for v, syn in lab.items()}
     stubs.install(stubs.Stub(*stubspec))
     try:
         rec, onode, snode, on, sn = R.build_rec(O, S, leafmap, m, lab, scheme=scheme, colours=colours)
@@ -288,7 +293,7 @@ def run_shard(shard, tier, seed):
             idx += 1
             # every colouring on every mapping (colour propagation is the delicate part), naming/labelling/orientation rotate
             for ci, colid in enumerate(cmenu):
-                labmode = ("none", "same", "losses")[(idx + ci) % 3]
+                labmode = ("none", "same", "losses", "gluey")[(idx + ci) % 4]
                 scheme = R.NAME_SCHEMES[(idx // 3 + ci) % 3]
                 orient = "VH"[(idx + ci) % 2]
                 n_eval += 1
